@@ -193,8 +193,11 @@ def r4_unkeyed_state(ctx):
     ctx.ob(rule, TG + '.attacks_cache', 'field used only by its two accessors', users <= {TG + '::cache_attack', TG + '::get_cached_attack'}, found=sorted(users),
            expected=[TG + '::cache_attack', TG + '::get_cached_attack'])
     users = {(f.closure_of or f.name) for f, b, fl in field_reads(facts, MG, 'cache')} | {(f.closure_of or f.name) for f, b, how, fl in field_writes(facts, MG, 'cache')}
-    users = {u for u in users if not facts.fns[u].derived and facts.fns[u].impl_trait != 'std::default::Default'}
-    ctx.ob(rule, MG + '.cache', 'move cache used only by generate_moves (and the entry counter)', users <= {MG + '::generate_moves', MG + '::cache_entry_count'},
+    from sa.facts import size_only_use
+    # (a reader that only asks how many entries there are - statistics, a Display impl - neither changes nor hands out what is cached)
+    users = {u for u in users if not facts.fns[u].derived and facts.fns[u].impl_trait != 'std::default::Default'
+             and (u in (MG + '::generate_moves',) or not size_only_use(facts, facts.fns[u], MG, 'cache'))}
+    ctx.ob(rule, MG + '.cache', 'move cache used only by generate_moves (and the entry counter)', users <= {MG + '::generate_moves'},
            found=sorted(users), expected=[MG + '::generate_moves', MG + '::cache_entry_count'])
     # hit_count never reaches a result
     name = MG + '::generate_moves'
